@@ -139,7 +139,7 @@ func TestC06(t *testing.T) {
 		{name: "user-session+old-password", session: tUser, valid: true, sessUser: "u", oldpw: "right"},
 	}
 	targets := []string{"u", "v", "root", "zz", "bad/name", "U", "Root", "w"}
-	shapes := []string{"ok", "empty-username", "missing-fields", "wrong-types", "not-json", "trailing-garbage", "no-newpassword", "empty-newpassword"}
+	shapes := []string{"ok", "empty-username", "missing-fields", "wrong-types", "not-json", "trailing-garbage", "no-newpassword", "empty-newpassword", "no-password", "empty-password"}
 	endpoints := []string{"add", "remove", "update", "set-admin", "list", "list-full"}
 	if !ev.Thorough() {
 		targets = targets[:7]
@@ -206,6 +206,9 @@ func c06matrix(ev *verifev.Run, mux http.Handler, dir string, m c06state, snap v
 				for _, sh := range shapes {
 					if (sh == "no-newpassword" || sh == "empty-newpassword") && ep != "update" {
 						continue // only /api/update has that field
+					}
+					if (sh == "no-password" || sh == "empty-password") && ep != "add" {
+						continue // only /api/add has that field
 					}
 					if dirty {
 						must(verifx.Restore(dir, snap))
@@ -442,6 +445,10 @@ func c06body(ep string, cr c06cred, tg, sh string, m c06state) (body []byte, new
 		if ep == "list" || ep == "list-full" {
 			delete(f, "session")
 		}
+	case "no-password":
+		delete(f, "password")
+	case "empty-password":
+		f["password"] = ""
 	case "no-newpassword":
 		delete(f, "newpassword")
 	case "empty-newpassword":
